@@ -128,7 +128,7 @@ def materialize(writes, k, partial=None):
 
 def probe(folder, default, rules):
     """Reopen the real Traph on the folder and interrogate it."""
-    out = {"outcome": "", "qfail": [], "pages": [], "links": [], "inlinks": []}
+    out = {"outcome": "", "qfail": [], "pages": [], "links": [], "inlinks": [], "changed": 0}
     d = {}
     for a, r in rules:
         d[a] = rule_regex(r)
@@ -144,7 +144,14 @@ def probe(folder, default, rules):
         out["outcome"] = "error:" + exc_name(e)
         return out
     out["outcome"] = "opened"
+
+    def on_disk():
+        for st in (t.lru_trie_storage, t.links_store_storage):
+            st.file.flush()
+        return [open(os.path.join(folder, n), "rb").read() for n in ("lru_trie.dat", "link_store.dat")]
     try:
+        before, e0 = guarded(on_disk)      # after the constructor (which may re-create a header): C14 is about queries
+
         def q(name, fn):
             v, e = guarded(fn)
             if e:
@@ -183,6 +190,10 @@ def probe(folder, default, rules):
         q("dfs_iter", lambda: [l for _, l in t.lru_trie.dfs_iter()])
         q("nodes_iter", lambda: sum(1 for _ in t.lru_trie.nodes_iter()))
         out["qfail"] = sorted(set(out["qfail"]))
+        after, e1 = guarded(on_disk)
+        if before is not None and after is not None:
+            out["changed"] = sum(abs(len(a) - len(b)) + sum(1 for x, y in zip(a, b) if x != y)
+                                 for a, b in zip(before, after))
     finally:
         try:
             t.close()
